@@ -372,6 +372,7 @@ func (c *crashRig) runChild(w *crashWorld, injectCall string, when int, useStrac
 		os.WriteFile(filepath.Join(d, fmt.Sprintf("strace-%s-%d.log", injectCall, when)), b, 0o644)
 	}
 	mainPid := ""
+	candLine, candLabel := "", ""
 	counts := map[string]int{}
 	sc := bufio.NewScanner(f)
 	sc.Buffer(make([]byte, 1<<20), 1<<24)
@@ -392,6 +393,9 @@ func (c *crashRig) runChild(w *crashWorld, injectCall string, when int, useStrac
 		if m[1] == mainPid {
 			counts[m[2]]++
 			sr.mainSeq = append(sr.mainSeq, sysEvent{Syscall: m[2], N: counts[m[2]], Label: lab, InSB: inSB})
+			if injectCall != "" && m[2] == injectCall && counts[m[2]] == when {
+				candLine, candLabel = cut(line, 300), lab // printed as "<unfinished ...>" when another thread's event interleaves
+			}
 		}
 		if strings.HasSuffix(strings.TrimSpace(line), "= ?") {
 			sr.killLine, sr.killLabel, sr.killOnMain = cut(line, 300), lab, m[1] == mainPid
@@ -402,6 +406,9 @@ func (c *crashRig) runChild(w *crashWorld, injectCall string, when int, useStrac
 	}
 	if injectCall != "" && sr.childRes == nil && (sr.exit == 137 || sr.exit == -1) {
 		sr.killed = true
+	}
+	if sr.killed && sr.killLabel == "" && candLabel != "" {
+		sr.killLine, sr.killLabel, sr.killOnMain = candLine, candLabel, true
 	}
 	return sr, nil
 }
